@@ -967,8 +967,55 @@ func probeEarlyScenario(name, kind string, pendingPoll bool) Scenario {
 	}}
 }
 
+// (15) C02: a message the client sends as soon as it has read the open packet. The session is open, and on a stream transport its
+// reader is running, while the handshaking goroutine is still on its way to the connection event (held at one of its yield
+// points): the message event is emitted before the application has been handed the session, i.e. before it could register a
+// listener. (Listed as a known finding: see known-findings.json.)
+func earlyMsgScenario(name, kind, point string) Scenario {
+	return Scenario{Name: name, Run: func(t *testing.T, rec *Rec, g *Gates) {
+		cfg := EngCfg{PI: 25 * time.Second, PT: 20 * time.Second, WT: true}
+		w := newEngWorld(t, rec, g, cfg)
+		sc := &Script{w: w, r: rand.New(rand.NewSource(1)), cfg: cfg, W: map[string]int{}}
+		g.Park(point, true)
+		s := &Sess{Proto: 4}
+		c := &cliSess{S: s, Kind: "websocket", autoPong: true}
+		if kind == "webtransport" {
+			c.ws = w.DialWT(s, func(wc *WSClient, p Pkt) { sc.processPkts(c, []Pkt{p}, wc) })
+		} else {
+			c.ws = w.DialWS(s, "", nil, func(wc *WSClient, p Pkt) { sc.processPkts(c, []Pkt{p}, wc) })
+		}
+		sc.ss = append(sc.ss, c)
+		sc.settle()
+		held := g.Parked(point) > 0
+		g.Park(point, false)
+		sent, id := false, 0
+		if held && s.Sid != "" && !c.ws.closed { // the client has read the open packet
+			m := w.ClientMsg(6, false, 0)
+			id = parseMsgID("c", m.Data)
+			c.ws.SendPkt(m)
+			sent = true
+			sc.settle()
+		}
+		g.ReleaseAll()
+		sc.settle()
+		delivered := rec.CountWhere(func(e Ev) bool { return e["e"] == "sock.message" && e["id"] == id }) > 0
+		rec.Log("earlymsg", "sid", s.Sid, "kind", kind, "point", point, "held", held, "sent", sent, "delivered", delivered)
+		if s.Sid != "" {
+			w.Expect(s.Sid, "open")
+		}
+		w.Snapshot()
+		sc.Drain()
+		w.Finish()
+	}}
+}
+
 func directFamily() []Scenario {
 	var out []Scenario
+	for _, kind := range []string{"websocket", "webtransport"} {
+		for _, point := range []string{"S.drain", "handshake.constructed", "handshake.stored", "handshake.listening"} {
+			out = append(out, earlyMsgScenario(fmt.Sprintf("earlymsg_%s_%s", kind, shortPoint(point)), kind, point))
+		}
+	}
 	for _, kind := range []string{"websocket", "webtransport"} {
 		for _, pp := range []bool{false, true} {
 			out = append(out, probeEarlyScenario(fmt.Sprintf("probeearly_%s_pp%v", kind, pp), kind, pp))
